@@ -301,6 +301,54 @@ def pairfuzz_item(out, item, rep, tmpdir):
     emit(out, item["id"], "pairfuzz_annotations", rep, "\n".join(outl), len(outl) > 0)
 
 
+def crossmap_item(out, item, rep, tmpdir):
+    """The stems of the complete structure asked of a mapping built on a model that lacks one paired residue: the
+    library tolerates the missing residue with a warning; whatever it returns must be the same every time."""
+    import io as _io
+    import random
+
+    from rnapolis import annotator, parser
+    from rnapolis.tertiary import Mapping2D3D
+
+    rnd = random.Random(item["gen_seed"])
+    with open(item["source"]) as f:
+        lines = f.read().splitlines()
+    full = parser.read_3d_structure(_io.StringIO("\n".join(lines) + "\n"), None)
+    bi = annotator.extract_base_interactions(full)
+    m_full = Mapping2D3D(full, bi.basePairs, bi.stackings, False)
+    stems = m_full.bpseq.elements[0]
+    # victims: residues that take part in a stem of the complete structure
+    victims = []
+    for st in stems:
+        for strand in (st.strand5p, st.strand3p):
+            for idx in range(min(strand.first, strand.last), max(strand.first, strand.last) + 1):
+                r = m_full.bpseq_index_to_residue_map.get(idx)
+                if r is not None and r.auth is not None:
+                    victims.append("%s%4d%s" % (r.auth.chain[:1], r.auth.number, r.auth.icode or " "))
+    victims = sorted(set(victims)) or sorted({l[21:27] for l in lines if l.startswith("ATOM")})
+    outl = []
+    for trial in range(3):
+        gone = rnd.choice(victims)
+        model_lines = [l for l in lines if not (l.startswith(("ATOM  ", "HETATM")) and l[21:27] == gone)]
+        model = parser.read_3d_structure(_io.StringIO("\n".join(model_lines) + "\n"), None)
+        bim = annotator.extract_base_interactions(model)
+        mapping = Mapping2D3D(model, bim.basePairs, bim.stackings, True)
+        try:
+            coords = [[None if c is None else [round(float(x), 6) for x in c] for c in mapping.get_stem_coordinates(st)] for st in stems]
+        except Exception as e:  # noqa: BLE001
+            coords = "raised %s" % type(e).__name__
+        try:
+            params = [mapping.calculate_inter_stem_parameters(stems[a], stems[b]) for a in range(len(stems)) for b in range(a + 1, len(stems))]
+        except Exception as e:  # noqa: BLE001
+            params = "raised %s" % type(e).__name__
+        try:
+            pml = annotator.generate_pymol_script(mapping, stems)
+        except Exception as e:  # noqa: BLE001
+            pml = "raised %s" % type(e).__name__
+        outl.append("%d %s %r %r %s" % (trial, gone, coords, params, pml))
+    emit(out, item["id"], "crossmap_stem_geometry", rep, "\n".join(outl), len(stems) > 0)
+
+
 def unifier_gen_item(out, item, rep, tmpdir):
     """`unifier` on two to four copies of one corpus PDB file that disagree on residue identifiers (another chain
     letter, shifted numbers, hydrogens dropped): the vote on the common identifiers has ties to break."""
@@ -764,6 +812,8 @@ def main():
                         unifier_gen_item(out, item, rep, tmpdir)
                     elif item["type"] == "pairfuzz":
                         pairfuzz_item(out, item, rep, tmpdir)
+                    elif item["type"] == "crossmap":
+                        crossmap_item(out, item, rep, tmpdir)
                     else:
                         bpseq_item(out, item, rep, tmpdir)
                 except Exception as e:  # noqa: BLE001 - an exception is an output too, and must be the same everywhere
